@@ -4,7 +4,7 @@
     calls that consume nothing.  Only offsets matter here (panics are excluded in LexParse2Proofs.v), so
     iterators are only required to be suffixes of the token list. *)
 From Coq Require Import List NArith ZArith Bool Lia ZifyN ZifyNat ZifyBool.
-From TLV Require Import Lex.LexModel Lex.LexProofs Lex.LexParse1Model Lex.LexParse2Model.
+From TLV Require Import Lex.LexModel Lex.LexProofs Lex.LexParse1Model Lex.LexParse2Model Lex.LexParse2Proofs.
 Import ListNotations.
 Open Scope N_scope.
 
@@ -449,9 +449,8 @@ Proof.
   g_step. g_step; [apply parseTL2TypeName_G; [assumption|g_lia]|]. g_step. g_step.
   match goal with |- G _ _ (let '(_, _) := expectProgress ?a ?e in _) => destruct (expectProgress a e) as [okp st1] eqn:EP end.
   destruct okp; cbn [negb].
-  2:{ cbn [G]. split; [assumption|]. split; [g_lia|]. unfold okStrict, expectProgress in *.
-      destruct (hasProgress st0); [discriminate|]. inversion EP; subst. destruct (isOmitted st0); [cbn; destruct (oerr st0); discriminate|].
-      unfold hasProgress in *. intros HN. unfold isOmitted in *. destruct (sp st0); [|discriminate]. unfold noErr in *. rewrite HN in *. discriminate. }
+  2:{ cbn [G]. split; [assumption|]. split; [g_lia|]. unfold okStrict, expectProgress in *. intros HN. exfalso.
+      destruct st0 as [sp0 [e0|]]; destruct sp0; cbn in EP; inversion EP; subst st1; cbn in HN; discriminate. }
   (* the type name was parsed: at least one token consumed *)
   assert (Hstrict : (i_off it < i_off rest0)%nat).
   { unfold expectProgress in EP. destruct (hasProgress st0) eqn:HP; [|discriminate].
@@ -479,9 +478,9 @@ Proof.
   - exfalso. apply HC. unfold mu. lia.
 Qed.
 
-Theorem parseTokens2_fuel : n = n -> parseTokens2 n ts <> T_nofuel.
+Theorem parseTokens2_fuel : parseTokens2 n ts <> T_nofuel.
 Proof.
-  intros _. unfold parseTokens2. apply tl2Loop_G.
+  unfold parseTokens2. apply tl2Loop_G.
   - split; [reflexivity|cbn; lia].
   - unfold mu. cbn. lia.
   - unfold parseFuel. lia.
@@ -493,7 +492,20 @@ End Fuel2.
 Theorem parseTL2File_fuel o s : parseTL2File o s <> PR_nofuel.
 Proof.
   unfold parseTL2File. destruct (LexProofs.front_total o s) as [[e F0]|[toks F0]]; rewrite F0; [discriminate|].
-  pose proof (parseTokens2_fuel toks (lenN s) eq_refl) as H.
+  pose proof (parseTokens2_fuel toks (lenN s)) as H.
   destruct (parseTokens2 (lenN s) toks) as [st r a| |]; try discriminate; [|contradiction].
   destruct (oerr st); discriminate.
+Qed.
+
+(** tokenizer + parser model: terminates, never panics, every error in range *)
+Theorem parseTL2File_total o s :
+  match parseTL2File o s with
+  | PR_ok => True
+  | PR_err _ e => err_in_range s e
+  | PR_panic => False
+  | PR_nofuel => False
+  end.
+Proof.
+  pose proof (parseTL2File_safe o s) as H. pose proof (parseTL2File_fuel o s) as Hf.
+  destruct (parseTL2File o s); auto.
 Qed.
